@@ -37,14 +37,15 @@ type rwlocker interface {
 type rec struct {
 	km      locker
 	rw      rwlocker
-	writers [2]int
-	readers [2]int
-	busy    [2]int // threads between the start of an acquisition and the end of its release
-	touch   [2]int // acquisitions ever started on the key
+	writers [3]int
+	readers [3]int
+	busy    [3]int // threads between the start of an acquisition and the end of its release
+	touch   [3]int // acquisitions ever started on the key
 	viol    *schk.Fail
 	tries   [][2]int // (k, result) per try, for the outcome string
 	t2done  bool
 	results []string
+	nkeys   int // logical keys the locker knows (0 = 3)
 }
 
 //go:norace
@@ -172,13 +173,13 @@ func crowded(rw bool, used bool, crowd int, prog [][]acq, bound, raceBound int) 
 	if crowd > 0 {
 		name = fmt.Sprintf("%s/%d-other-keys|", name[:len(name)-1], crowd)
 	}
-	uses := [2]int{}
+	uses := [3]int{}
 	for i, p := range prog {
 		if i > 0 {
 			name += " || "
 		}
 		name += fmt.Sprint(p)
-		seen := [2]bool{}
+		seen := [3]bool{}
 		for _, a := range p {
 			if !seen[a.k] {
 				seen[a.k] = true
@@ -236,11 +237,24 @@ func crowded(rw bool, used bool, crowd int, prog [][]acq, bound, raceBound int) 
 			if x.Panic != "" || x.Deadlock {
 				return nil, "abnormal"
 			}
-			// afterwards every key is free again
-			for k := 0; k < 2; k++ {
+			// afterwards every key is free again - and they are different locks: all of them can be held
+			// at the same time
+			nk := 3
+			if r.nkeys > 0 {
+				nk = r.nkeys
+			}
+			for k := 0; k < nk; k++ {
 				if !r.km.TryLockKey(k) {
 					return schk.Failf("not-released", "after all threads finished key %d cannot be try-locked", k), ""
 				}
+				r.km.UnlockKey(k)
+			}
+			for k := 0; k < nk; k++ {
+				if !r.km.TryLockKey(k) {
+					return schk.Failf("keys-share-a-lock", "after all threads finished, key %d cannot be try-locked while the keys below it are held: two keys share one lock", k), ""
+				}
+			}
+			for k := 0; k < nk; k++ {
 				r.km.UnlockKey(k)
 			}
 			return nil, fmt.Sprint(r.results)
@@ -474,7 +488,7 @@ func typed(ty int, rw bool, prog [][]acq, bound, raceBound int) schk.Scenario {
 	sc := crowded(rw, false, 0, prog, bound, raceBound)
 	sc.Name = "key type " + keyTypes[ty].name + "/" + sc.Name
 	sc.Body = func(s *vrt.Sched) any {
-		r := &rec{results: make([]string, len(prog))}
+		r := &rec{results: make([]string, len(prog)), nkeys: 2}
 		l := keyTypes[ty].mk(rw)
 		r.km = l
 		if rw {
@@ -689,6 +703,33 @@ func main() {
 			}
 			for _, op := range ops {
 				scs = append(scs, unhashableScenario(rw, used, op))
+			}
+		}
+		// keys that were used and cleared before (whatever ClearKey sets aside is there to be reused), then
+		// first uses of three keys by two threads with a ClearKey of an idle key in between
+		for _, cleared := range []int{0, 1, 2, 3, 5} {
+			for _, pp := range [][][]acq{
+				{{{"L", 2}}, {{"L", 0}, {"L", 1}, {"C", 0}}},
+				{{{"TL", 2}}, {{"L", 0}, {"C", 0}, {"L", 1}}},
+				{{{"L", 2}, {"C", 2}}, {{"L", 0}, {"L", 1}, {"C", 1}}},
+			} {
+				sc := crowded(rw, false, 0, pp, ev.Pick(r, 2, 3), -2)
+				sc.Name = fmt.Sprintf("%d keys used and cleared before/%s", cleared, sc.Name)
+				inner := sc.Body
+				n := cleared
+				sc.Body = func(s *vrt.Sched) any {
+					r := inner(s).(*rec)
+					// (the threads are spawned but not started: this still is the sequential set-up)
+					for k := 20; k < 20+n; k++ {
+						r.km.LockKey(k)
+						r.km.UnlockKey(k)
+					}
+					for k := 20; k < 20+n; k++ {
+						r.km.ClearKey(k)
+					}
+					return r
+				}
+				scs = append(scs, sc)
 			}
 		}
 		// ClearKey between uses (no goroutine holds or awaits the key), another thread on the other key
